@@ -83,7 +83,7 @@ def run(ctx):
     ctx.ensure_simgrid(["simgrid"])
     ctx.lean_prove()
     drv = ctx.lean_exe()
-    h = ctx.build_harness(os.path.join(ctx.pdir, "..", "_shared", "fluid", "fluid_harness.cpp"), name="fluid_harness")
+    h = G.build_harness(ctx)
     if not (drv and h):
         return
     n = 150 if ctx.tier == "quick" else 3000
